@@ -8,6 +8,7 @@ segment). After each run: results type-strictly equal to run 1 and counters equa
 import copy
 import datetime
 import decimal
+import json
 import os
 import shutil
 
@@ -105,6 +106,9 @@ def gen_cases(tier, seed):
     # a first attempt that FAILS (a step before the checkpoint raises at some row): the next run must equal a clean run
     for i in range({'quick': 8, 'thorough': 64}[tier]):
         yield {'family': 'failed_first_run', 'idx': 2 * 10 ** 6 + i, 'seed': seed}
+    # the saving and the resuming run happen in processes whose locale is not UTF-8 (LC_ALL=C, UTF-8 mode off)
+    for i in range(2):
+        yield {'family': 'c_locale', 'idx': 4 * 10 ** 6 + i, 'seed': seed}
     # a resource without fields (all of them deleted) still has rows - empty mappings - and is followed by others
     for i in range({'quick': 4, 'thorough': 24}[tier]):
         yield {'family': 'fieldless_resource', 'idx': 3 * 10 ** 6 + i, 'seed': seed}
@@ -205,6 +209,50 @@ def run_failed_first(case):
                 sample={'config': cfg})
 
 
+C_LOCALE_SCRIPT = r'''
+import json, sys
+import dataflows as d
+# (ASCII-only source text: a C-locale interpreter cannot read anything else from its command line)
+rows = [{'id': i, 't': t} for i, t in enumerate(['plain', 'z\u00f3\u0142\u0107', '\u65e5\u672c\u8a9e', '\U0001F600 ok', 'fin'])]
+res = d.Flow(rows, d.update_resource(-1, name='t\u00e9st'), d.checkpoint('cp', checkpoint_path='cpl'),
+             d.add_field('z', 'integer', 1)).results()
+print('RESULT ' + json.dumps([res[0], [r['name'] for r in res[1].descriptor['resources']]]))
+'''
+
+
+def run_c_locale(case):
+    import subprocess
+    counters = {'resumed_runs': 0, 'rows_compared': 0}
+    cfg = {'family': 'c_locale', 'variant': ['saving_and_resuming_in_C_locale', 'saving_in_utf8_resuming_in_C_locale'][case['idx'] % 2]}
+    env_c = dict(os.environ, PYTHONPATH=boot.REPO, LC_ALL='C', LANG='C', PYTHONUTF8='0', PYTHONCOERCECLOCALE='0',
+                 PYTHONIOENCODING='ascii:backslashreplace')
+    env_u = dict(os.environ, PYTHONPATH=boot.REPO, LC_ALL='C.UTF-8', PYTHONUTF8='1')
+    outs = []
+    viol = []
+    for n, env in enumerate([env_c if case['idx'] % 2 == 0 else env_u, env_c]):
+        try:
+            p = subprocess.run([boot.PY, '-W', 'ignore', '-c', C_LOCALE_SCRIPT], capture_output=True, text=True, timeout=120,
+                               env=env, cwd=os.getcwd())
+        except subprocess.TimeoutExpired:
+            return dict(nontrivial=False, violations=[], counters=counters, cov={'value_class': {}, 'history': {}},
+                        inconclusive='subprocess timed out')
+        line = next((ln for ln in p.stdout.splitlines() if ln.startswith('RESULT ')), None)
+        if line is None:
+            viol.append({'kind': 'run_failed', 'mech': 'run_failed/c_locale', 'config': cfg,
+                         'msg': '%r: run %d (%s) failed: %s' % (cfg, n + 1, 'saving' if n == 0 else 'resuming',
+                                                               p.stderr.strip().splitlines()[-1][:300] if p.stderr.strip() else '?')})
+            break
+        outs.append(json.loads(line[7:]))
+    if len(outs) == 2:
+        counters['resumed_runs'] += 1
+        counters['rows_compared'] += len(outs[0][0][0])
+        if outs[0] != outs[1]:
+            viol.append({'kind': 'value', 'mech': 'value/c_locale', 'config': cfg,
+                         'msg': '%r: the resumed run returned %r, the first run %r' % (cfg, outs[1], outs[0])})
+    return dict(nontrivial=len(outs) == 2, violations=viol, counters=counters,
+                cov={'value_class': {'text_non_ascii': 1}, 'history': {cfg['variant']: 1}}, sample={'config': cfg})
+
+
 def run_fieldless(case):
     rng = boot.rng(case['seed'], 'C07', 'fieldless', case['idx'])
     d = lab.df()
@@ -270,6 +318,8 @@ def run_case(case):
         return run_failed_first(case)
     if case['family'] == 'fieldless_resource':
         return run_fieldless(case)
+    if case['family'] == 'c_locale':
+        return run_c_locale(case)
     rng = boot.rng(case['seed'], 'C07', case['idx'])
     d = lab.df()
     counters = {'resumed_runs': 0, 'rows_compared': 0}
@@ -308,7 +358,8 @@ def run_case(case):
     reuse = rng.random() < 0.25
     cfg['same_flow_object'] = reuse
     nested = boot.rng(case['seed'], 'C07', 'nested', case['idx']).choice(
-        [None, None, None, 'checkpoint_alone', 'segment_and_checkpoint', 'steps_argument'])
+        [None, None, None, 'checkpoint_alone', 'segment_and_checkpoint', 'steps_argument', 'two_levels_deep',
+         'two_levels_deep_alone'])
     cfg['checkpoint_in_nested_flow'] = nested
     if nested:
         cov['history']['checkpoint_in_nested_flow/' + nested] = 1
@@ -380,6 +431,10 @@ def run_case(case):
                 steps += [seg(k), pseg(k), d.Flow(d.checkpoint('cp%d' % k, checkpoint_path=cpdir))]
             elif nested == 'segment_and_checkpoint':
                 steps.append(d.Flow(seg(k), pseg(k), d.checkpoint('cp%d' % k, checkpoint_path=cpdir)))
+            elif nested == 'two_levels_deep':
+                steps.append(d.Flow(d.Flow(seg(k), pseg(k), d.checkpoint('cp%d' % k, checkpoint_path=cpdir))))
+            elif nested == 'two_levels_deep_alone':
+                steps += [seg(k), d.Flow(pseg(k), d.Flow(d.checkpoint('cp%d' % k, checkpoint_path=cpdir)))]
             elif nested == 'steps_argument':
                 # the segment is handed to the checkpoint as its `steps`: it runs after the links that precede it
                 steps.append(d.checkpoint('cp%d' % k, checkpoint_path=cpdir, steps=[seg(k), pseg(k)]))
